@@ -260,8 +260,13 @@ impl<'r> G<'r> {
         self.closure_expr(scope, arity)
     }
 
-    /// a fresh closure that does not mutate any table (key function of a native-backed std call)
+    /// key function of a native-backed std call: half of the time a fresh closure that does not
+    /// mutate any table, otherwise any function value (the natives work on a private copy of the
+    /// table, so a key function that mutates the table being processed is legal)
     fn pure_fun_expr(&mut self, scope: &[Var], arity: usize) -> Card {
+        if self.rng.chance(1, 2) {
+            return self.fun_expr(scope, arity);
+        }
         if !self.cfg.closures || self.in_closure >= 2 {
             return c(CardBody::Function("keyfn".to_string()));
         }
